@@ -865,16 +865,28 @@ func rescalingRule(P *Program, R *Report, rule string) {
 				rets = append(rets, t.String())
 			}
 		}
+		wantB := termFn("Rsh", tsum(tsym(rpP+".K"), tconst(2)), tconst(2))
 		allInstrs(fn, func(i ssa.Instruction) {
 			if c, ok := i.(*ssa.Call); ok && bigMethod(c) == "Rsh" {
 				if t, ok := be.Ret[c]; ok {
 					rets = append(rets, t.String())
-					okB = t.equal(termFn("Rsh", tsum(tsym(rpP+".K"), tconst(2)), tconst(2)))
+					okB = okB || t.equal(wantB)
 				}
 			}
-			if b, ok := i.(*ssa.BinOp); ok && b.Op == token.SHR && desc(b.X) == rpP+".A" && desc(b.Y) == "2" {
-				okF = true
+		})
+		// (or computed by an unexported helper that is handed K and A: its results as terms of this function's values)
+		for _, t := range be.Inl {
+			rets = append(rets, t.String())
+			if t.equal(wantB) {
+				okB = true
 			}
+		}
+		deepVisit(P, fn, 1, func(g *ssa.Function) {
+			allInstrs(g, func(i ssa.Instruction) {
+				if b, ok := i.(*ssa.BinOp); ok && b.Op == token.SHR && desc(b.X) == rpP+".A" && desc(b.Y) == "2" {
+					okF = true
+				}
+			})
 		})
 		R.decide(rule, kProven+":bound", "three squares: the reported bound is (K+2)>>2, the inverse of 4*bound-2", okB, strings.Join(rets, " | "), P.Pos(fn.Pos()))
 		R.decide(rule, kProven+":factor", "three squares: the reported factor is A>>2", okF, "", P.Pos(fn.Pos()))
